@@ -76,6 +76,12 @@ impl<'t, 'a> ArrGen<'t, 'a> {
                 let far = if self.t.chance(1, 12) { 60 + self.t.pick(240) } else { 0 };
                 Primary::Lit(Lit::Num((4 + self.t.pick(36) + far) as f64))
             }
+            2 if self.t.chance(1, 3) => {
+                // positions a hair below / above a whole number (what adding 0.1 ten times gives): the integer part counts,
+                // for reading and for writing alike
+                self.labels.insert("index_next_to_a_whole_number");
+                Primary::Lit(Lit::Num(*self.t.choose(&[0.9999999999999999, 1.9999999999999998, 2.0000000000000004, 0.99999999999, 1.0000000000000002, 2.9999999999999996])))
+            }
             2 => pvar(&self.frac.clone()),
             3 => pvar(&self.neg.clone()),
             4 => {
